@@ -3,6 +3,9 @@ import CssVerif.Lemmas.SelPrep
 import CssVerif.Lemmas.SelUsed
 import CssVerif.Lemmas.SelList
 import CssVerif.Lemmas.SelAcc
+import CssVerif.Lemmas.SelTok
+import CssVerif.Lemmas.SelAttachSpec
+import CssVerif.Lemmas.SelAttachRun
 /-!
 # C16 — selector specificity, structure and list semantics
 
@@ -272,5 +275,182 @@ example : ∃ r, parseCore demoNs demo.raw = .ok (some r) ∧ (r.b, r.c, r.d) = 
 /-- TEST (evaluation on one input, not a theorem): `:NOT(` and `:n\ot(` in any case are the negation -/
 example : (parseCore [] [⟨.ident, [97]⟩, ⟨.char, [58]⟩, ⟨.function, [78, 79, 84, 40]⟩, ⟨.char, [46]⟩, ⟨.ident, [98]⟩,
     ⟨.char, [41]⟩]).toOption.join.map (fun r => (r.b, r.c, r.d)) = some (0, 1, 1) := by decide
+
+/-! ## T16.4 — text level: the tokenizer model (`Model/Tok.lean`, kernel K1 of C05) in front of the selector model
+
+`tokensOf text` = `Tokenizer().tokenize(text)` (no full sheet, comments kept) handed to `Selector` by type name and
+value; `flat l` = the concatenation of the token values; `Sel.text s = flat s.raw`.
+`plainChain l` (decidable, `Model/SelText.lean`) = **plain spelling**: every token is a lexeme of its class whose value
+is its spelling —
+* IDENT / HASH / FUNCTION / the unit of a DIMENSION: names of letters, digits, `-`, `_`, non-ASCII code points and
+  *simple escapes* (backslash + any code point that is no hex digit and no line break; in any letter case); an IDENT /
+  FUNCTION / unit starts with a letter or `_` or a non-ASCII code point, or with `-` and a letter, or with a simple
+  escape other than `\u` `\U`; after a leading `u` / `U` the second code point is a name code point other than `r` `R`
+  (`url(`, `U+…` are other tokens); a FUNCTION is not `and(`; hex escapes are not plain (their value is not their
+  spelling);
+* white space of any length and kind; comments `/*…*/` whose text ends with its first `*/`; strings in either quote
+  style without backslash and line break; integers and dimensions with an optional sign; the five match operators; the
+  characters `, : > [ ] = ) * | ~ . + -`;
+and each token may be followed by the first code point of the next one: a name / dimension by anything but a name code
+point, backslash or `(`; white space by non-white space; `* | ~` not by `=`; `.` not by a digit; `+` not by a digit or
+`.`; `-` by nothing that continues a name, a number or `-->`; an integer not by a name code point, `%`, `.`, `(`.
+The first code point of the text is not `@`, U+00EF, U+00FE (no `@charset `, no BOM). About 93 % of the generated
+grammar × spelling cases are plain (evidence: `text:plain` / `text:other-spelling`). -/
+
+/-- **T16.4 `tokenize_plain`.** For every token list in plain spelling the tokenizer, run on the concatenation of
+the token values, returns exactly these tokens: no two neighbours fuse, none is split, every type and value is kept
+(no separating white space is needed — `a.b#c[d|=e]:not(f)>g` —, unlike `C05.lexeme_separation`). -/
+theorem tokenize_plain (l : List Tok) (h : plainChain l = true) : tokensOf (flat l) = l := tokensOf_plain l h
+
+/-- **T16.4 `text_render`** (`parse (tokenize (renderText ast)) = ast`). For every written selector of the grammar
+of `spec_render` in plain spelling: tokenizing its *text* and running `_prepare_tokens`, the `New` state machine and
+the post-conditions on the tokenizer's output yields the specificity `(0, count)`, the item sequence and the `element`
+as written — text to structure, both kernels composed, no exception, not rejected. -/
+theorem text_render (ns : NsMap) (s : Sel) (hs : s.ok ns = true) (hp : plainChain s.raw = true) :
+    parseCore ns (tokensOf s.text)
+      = .ok (some { b := s.count.1, c := s.count.2.1, d := s.count.2.2, seq := s.items ns, element := s.element ns }) := by
+  rw [Sel.text, tokenize_plain s.raw hp]
+  exact spec_render ns s hs
+
+/-- … and `Selector.selectorText = text` commits exactly that -/
+theorem text_render_commit (ns : NsMap) (s : Sel) (hs : s.ok ns = true) (hp : plainChain s.raw = true) :
+    ∃ used, parseSel ns (tokensOf s.text)
+      = .ok (some { b := s.count.1, c := s.count.2.1, d := s.count.2.2, seq := s.items ns, element := s.element ns,
+                    nsUsed := used }) := by
+  rw [Sel.text, tokenize_plain s.raw hp]
+  exact spec_render_commit ns s hs
+
+/-- at text level: two plain texts with the same skeleton get the same specificity -/
+theorem text_specificity_depends_on_skeleton_only (ns₁ ns₂ : NsMap) (s₁ s₂ : Sel) (h₁ : s₁.ok ns₁ = true)
+    (h₂ : s₂.ok ns₂ = true) (p₁ : plainChain s₁.raw = true) (p₂ : plainChain s₂.raw = true) (hk : s₁.skel = s₂.skel) :
+    ∃ r₁ r₂, parseCore ns₁ (tokensOf s₁.text) = .ok (some r₁) ∧ parseCore ns₂ (tokensOf s₂.text) = .ok (some r₂) ∧
+      (r₁.b, r₁.c, r₁.d) = (r₂.b, r₂.c, r₂.d) := by
+  refine ⟨_, _, text_render ns₁ s₁ h₁ p₁, text_render ns₂ s₂ h₂ p₂, ?_⟩
+  simp [Sel.count, hk]
+
+/- Full statement of the text level (every spelling): the same with `Sel.source s` — the token *spellings*, i.e. with
+   hex escapes, names that start with `ur` / `u\…`, strings with escapes, fractional numbers — in place of
+   `Sel.text s`, and no hypothesis `plainChain`. Missing: the lexeme classes with hex escapes (`unicodesub` changes the
+   value), the rest of the `u` / `U` start (productions URI and UNICODE-RANGE come first), escapes inside strings.
+   Those spellings are covered by the correspondence streams
+   `spec` (`Sel.raw` = the real tokenizer's tokens) and `seltext` (model pipeline on the text = `Selector(text)`).
+   Round trip at text level (`tokensOf (SelRec.text r)` parses to the same items): not proved; it needs the
+   serialisation `serItems` written as a plain chain (a canonical re-spelling of the written selector); checked on
+   the implementation by the round-trip oracle on every accepted selector. -/
+
+/-- `*|div#i/*x*/.c[ p|href ~='a']:hover:not( [|x]):not(:nth-child(2)):before > p|*:lang( en ) ::x(a) /*t*/ ` -/
+def demoText : Sel := {
+  lead := [.ws [32]],
+  first := {
+    head := some ⟨.any, some [100, 105, 118]⟩,
+    rest := [([], .id [35, 105]), ([[47, 42, 120, 42, 47]], .cls [99]),
+             ([], .attr { f1 := [.ws [32]], pfx := .named [112], name := [104, 114, 101, 102], f2 := [.ws [32]],
+                          opv := some (.includes, [], .string [39, 97, 39], []) }),
+             ([], .pseudo false [104, 111, 118, 101, 114]),
+             ([], .not [110, 111, 116, 40] [.ws [32]]
+                    (.attr { f1 := [], pfx := .empty, name := [120], f2 := [], opv := none }) []),
+             ([], .not [110, 111, 116, 40] [] (.func false [110, 116, 104, 45, 99, 104, 105, 108, 100, 40] [.num [50]]) []),
+             ([], .pseudo false [98, 101, 102, 111, 114, 101])] },
+  more := [(⟨[.ws [32]], some (.child, [.ws [32]])⟩,
+            { head := some ⟨.named [112], none⟩,
+              rest := [([], .func false [108, 97, 110, 103, 40] [.ws [32], .ident [101, 110], .ws [32]])] }),
+           (⟨[.ws [32]], none⟩, { head := none, rest := [([], .func true [120, 40] [.ident [97]])] })],
+  trail := [.ws [32], .cm [47, 42, 116, 42, 47], .ws [32]] }
+
+example : demoText.ok demoNs = true := by decide
+example : plainChain demoText.raw = true := by decide
+/-- the theorem applied: text in, specificity `(0,1,3,3)` out -/
+example : ∃ r, parseCore demoNs (tokensOf demoText.text) = .ok (some r) ∧ (r.b, r.c, r.d) = (1, 3, 3) :=
+  ⟨_, text_render demoNs demoText (by decide) (by decide), by decide⟩
+/-- neighbours that would fuse are not plain: `a` directly followed by `b`; `*` followed by `=`; `.` followed by `5` -/
+example : plainChain [⟨.ident, [97]⟩, ⟨.ident, [98]⟩] = false ∧ plainChain [⟨.char, [42]⟩, ⟨.char, [61]⟩] = false ∧
+    plainChain [⟨.char, [46]⟩, ⟨.number, [53]⟩] = false := by decide
+/-- TEST (evaluation of the tokenizer model on one text, not a theorem): `a.b#c[d|=e]:not(f)>g` -/
+example : tokensOf [97, 46, 98, 35, 99, 91, 100, 124, 61, 101, 93, 58, 110, 111, 116, 40, 102, 41, 62, 103] =
+    [⟨.ident, [97]⟩, ⟨.char, [46]⟩, ⟨.ident, [98]⟩, ⟨.hash, [35, 99]⟩, ⟨.char, [91]⟩, ⟨.ident, [100]⟩,
+     ⟨.dashmatch, [124, 61]⟩, ⟨.ident, [101]⟩, ⟨.char, [93]⟩, ⟨.char, [58]⟩, ⟨.function, [110, 111, 116, 40]⟩,
+     ⟨.ident, [102]⟩, ⟨.char, [41]⟩, ⟨.char, [62]⟩, ⟨.ident, [103]⟩] := by decide +kernel
+
+/-! ## T16.5 — attaching a selector to a sheet (`Selector._namespaces`, selector.py:673-678)
+
+While a selector is not attached, `do_css_Selector` writes it with its own dict `__namespaces` — the namespaces it was
+parsed with, filtered to the URIs it uses (`SelRec.nsUsed`); once `parent.parentRule.parentStyleSheet` exists, with the
+namespaces of that sheet (`SelRec.textIn sheetNs`). Specificity, `seq` and `element` are stored: attaching cannot
+touch them (they are fields of `SelRec`; `textIn` reads `seq` only). -/
+
+/-- **T16.5 `attach_text_congr`** (every item sequence, any two namespace maps): the written text depends on the
+namespaces only through the decision "this URI is the default namespace" and the prefix found for the URIs that are
+written with a prefix. -/
+theorem attach_text_congr (ns₁ ns₂ : NsMap) (seq : List Item)
+    (h : ∀ it ∈ seq, ∀ u n, it.val = .ns u n →
+      plainOf (nsGet ns₁ []) u = plainOf (nsGet ns₂ []) u ∧
+      ∀ y, u = .uri y → plainOf (nsGet ns₂ []) u = false → prefixFor ns₁ y = prefixFor ns₂ y) :
+    serItems ns₁ seq = serItems ns₂ seq := serItems_congr ns₁ ns₂ seq h
+
+/-- **T16.5 `attach_keeps_text`**: a written selector parsed with the namespaces `ns` of a sheet (a dict: no prefix
+twice) and then attached to that sheet keeps its specificity, its items and its **text**: the sheet's namespaces
+write what the selector's own filtered namespaces wrote. -/
+theorem attach_keeps_text (ns : NsMap) (s : Sel) (hs : s.ok ns = true) (hnd : (ns.map (·.1)).Nodup) :
+    ∃ r, parseSel ns s.raw = .ok (some r) ∧ (r.b, r.c, r.d) = s.count ∧ r.seq = s.items ns ∧
+      r.textIn ns = r.text := by
+  obtain ⟨uris, hu⟩ := usedUris_ok (s.items ns)
+  have hne : s.raw.isEmpty = false := by
+    cases hr : s.raw with
+    | nil =>
+      have h := spec_render ns s hs
+      rw [hr] at h
+      simp [parseCore, prepare, prepAcc, run, finishCore, bind, Except.bind, pure, Except.pure] at h
+    | cons t ts => rfl
+  refine ⟨{ b := s.count.1, c := s.count.2.1, d := s.count.2.2, seq := s.items ns, element := s.element ns,
+            nsUsed := ns.filter fun pu => uris.contains (.uri pu.2) }, ?_, rfl, rfl, ?_⟩
+  · simp [parseSel, hne, spec_render ns s hs, commit, usedNamespaces, hu, bind, Except.bind, pure, Except.pure]
+  · exact (serItems_filter ns (s.items ns) uris hu hnd (items_nsTyped ns s hs) (items_noneOnly ns s hs)).symm
+
+/-- the same from the text: tokenize, parse, attach -/
+theorem attach_keeps_text_of_text (ns : NsMap) (s : Sel) (hs : s.ok ns = true) (hp : plainChain s.raw = true)
+    (hnd : (ns.map (·.1)).Nodup) :
+    ∃ r, parseSel ns (tokensOf s.text) = .ok (some r) ∧ (r.b, r.c, r.d) = s.count ∧ r.seq = s.items ns ∧
+      r.textIn ns = r.text := by
+  rw [Sel.text, tokenize_plain s.raw hp]
+  exact attach_keeps_text ns s hs hnd
+
+/-- the namespaces of a sheet of the `Ns` model (C15) are such a map: `Ns.view sheet` — the theorem instantiated -/
+theorem attach_to_sheet (sheet : CssVerif.Ns.Sheet) (s : Sel) (hs : s.ok (CssVerif.Ns.view sheet) = true)
+    (hnd : ((CssVerif.Ns.view sheet).map (·.1)).Nodup) :
+    ∃ r, parseSel (CssVerif.Ns.view sheet) s.raw = .ok (some r) ∧ (r.b, r.c, r.d) = s.count ∧
+      r.textIn (CssVerif.Ns.view sheet) = r.text := by
+  obtain ⟨r, h1, h2, _, h4⟩ := attach_keeps_text (CssVerif.Ns.view sheet) s hs hnd
+  exact ⟨r, h1, h2, h4⟩
+
+/-- **T16.5 `attach_keeps_text_all`** (every token list, not only written selectors): whatever `Selector` commits from
+tokens parsed with the namespaces `ns` of a sheet (a dict) is written, once attached to that sheet, exactly as before.
+(The two invariants of the item sequence — a `(namespaceURI, name)` pair sits only in `*-selector` / `universal` items,
+its URI is `None` only without a default namespace — hold along every run of the state machine: `run_good`, all 14
+callbacks.) -/
+theorem attach_keeps_text_all (ns : NsMap) (toks : List Tok) (r : SelRec) (hnd : (ns.map (·.1)).Nodup)
+    (h : parseSel ns toks = .ok (some r)) : r.textIn ns = r.text := by
+  obtain ⟨hgood, uris, hu, hused⟩ := parseSel_good ns toks r h
+  unfold SelRec.textIn SelRec.text
+  rw [hused]
+  exact (serItems_filter ns r.seq uris hu hnd (fun it hit u n hv => (hgood it hit u n hv).1)
+    (fun it hit n hv => (hgood it hit .none n hv).2 rfl)).symm
+
+/-- … for every text: tokenize, parse with the sheet's namespaces, attach -/
+theorem attach_keeps_text_of_any_text (ns : NsMap) (text : Cps) (r : SelRec) (hnd : (ns.map (·.1)).Nodup)
+    (h : parseSel ns (tokensOf text) = .ok (some r)) : r.textIn ns = r.text :=
+  attach_keeps_text_all ns (tokensOf text) r hnd h
+
+/- A sheet whose namespaces differ from the ones the selector was parsed with (a rule moved between sheets; two
+   prefixes for one URI, where the sheet reports the last one): `attach_text_congr` says exactly when the text stays;
+   the `attach` correspondence stream exercises renamed / missing / other-default / extra declarations. -/
+
+/-- non-vacuity: `demoNs` is a dict, `demo` is ok — and a TEST by evaluation: with another prefix for the same URI
+the text changes (`q|*` instead of `p|*`), the specificity cannot -/
+example : (demoNs.map (·.1)).Nodup := by decide
+example : ∃ r, parseSel demoNs demo.raw = .ok (some r) ∧ r.textIn demoNs = r.text :=
+  let ⟨r, h1, _, _, h4⟩ := attach_keeps_text demoNs demo (by decide) (by decide); ⟨r, h1, h4⟩
+example : (parseSel demoNs [⟨.ident, [112]⟩, ⟨.char, [124]⟩, ⟨.char, [42]⟩]).toOption.join.map
+    (fun r => (r.text, r.textIn [([113], [117, 114, 110, 58, 112])])) = some ([112, 124, 42], [113, 124, 42]) := by
+  decide
 
 end CssVerif.C16
